@@ -20,6 +20,7 @@ type Config struct {
 	MaxSteps    int64
 	TimeoutMs   int
 	Params      map[string]int
+	FallbackMs  int
 	NoPanic     bool // a Go panic on a feasible path is a violation
 	Verbose     bool
 	TrackWrites bool
@@ -84,6 +85,7 @@ type HarnessResult struct {
 	DistinctQ     int            `json:"distinct_queries"`
 	Nondet        []string       `json:"nondet_inputs"`
 	UnknownQ      int            `json:"unknown_queries"`
+	FallbackQ     int            `json:"fallback_queries"`
 	InfeasibleEnd int            `json:"infeasible_paths"`
 }
 
@@ -214,8 +216,17 @@ func (x *Exec) known(c *Term) (val, ok bool) {
 }
 
 func (x *Exec) check(extra ...*Term) Result {
-	r := x.sol.CheckWith(extra...)
+	x.sol.Push()
+	for _, e := range extra {
+		x.sol.Assert(e)
+	}
+	r := x.sol.Check()
 	x.res.Queries++
+	if r == Unknown && x.cfg.FallbackMs > 0 {
+		r, _, _ = x.sol.Fallback(x.cfg.FallbackMs, nil)
+		x.res.FallbackQ++
+	}
+	x.sol.Pop()
 	if r == Unknown {
 		x.res.UnknownQ++
 	}
@@ -1944,6 +1955,32 @@ func (x *Exec) reportViolation(kind, msg, site string, cond *Term) {
 	}
 	r := x.sol.Check()
 	x.res.Queries++
+	if r == Unknown && x.cfg.FallbackMs > 0 {
+		var names []string
+		for _, t := range vars {
+			names = append(names, tname(t))
+		}
+		var txt string
+		r, txt, _ = x.sol.Fallback(x.cfg.FallbackMs, names)
+		x.res.FallbackQ++
+		if r == Sat {
+			vals := parseValues(txt)
+			if len(vals) == len(vars) {
+				for i, n := range x.nondetOrd {
+					v.Model[n] = "0x" + vals[i].Text(16)
+				}
+			}
+			v.Status = "sat"
+			x.sol.Pop()
+			for _, o := range x.res.Violations {
+				if o.Kind == v.Kind && o.Site == v.Site && o.Msg == v.Msg {
+					return
+				}
+			}
+			x.res.Violations = append(x.res.Violations, v)
+			return
+		}
+	}
 	v.Status = r.String()
 	if r == Sat {
 		vals, err := x.sol.Values(vars)
